@@ -20,7 +20,7 @@ func zzLetter() string {
 	return string([]byte{c})
 }
 
-func zzIsAgg(k string) bool { return k == "msg" || k == "enum" || k == "pkg" }
+func zzIsAgg(k string) bool { return k == "msg" || k == "enum" || k == "pkg" || k == "svc" }
 func zzIsTyp(k string) bool { return k == "msg" || k == "enum" }
 
 // zzRefLookup transcribes protoc's DescriptorBuilder::LookupSymbolNoPlaceholder
@@ -144,6 +144,10 @@ func HarnessC15() {
 	if mpkg != "" {
 		main.Package = proto.String(mpkg)
 	}
+	// a service in main.proto's package: an aggregate (a dotted reference whose first
+	// component names it commits to that scope) that is not a type
+	svc := zzLetter()
+	main.Service = []*descriptorpb.ServiceDescriptorProto{{Name: proto.String(svc)}}
 	// symbol table of the reference
 	syms := map[string]string{}
 	zzAddPkg(syms, dpkg)
@@ -155,6 +159,9 @@ func HarnessC15() {
 	syms[mprefix+"Outer."+nested] = "msg"
 	syms[mprefix+"Outer."+fld2] = "other"
 	syms[mprefix+"Outer.f"] = "other"
+	syms[mprefix+svc] = "svc"
+	zz.Assume(mprefix+svc != dprefix+dmsg && mprefix+svc != dprefix+denum)
+	zz.Assume(mprefix+svc != dpkg && !strings.HasPrefix(dpkg, mprefix+svc+"."))
 	// files must link on their own merits: a symbol may not collide with a package
 	for _, n := range []string{dprefix + dmsg, dprefix + denum} {
 		zz.Assume(n != mpkg && !strings.HasPrefix(mpkg, n+"."))
@@ -170,32 +177,6 @@ func HarnessC15() {
 	res, err := Link(parser.ResultWithoutAST(main), Files{depRes}, syt, hm)
 
 	want, ok := zzRefLookup(syms, ref, mprefix+"Outer.f")
-	// Recorded finding C15/package-name-shadows-type: an unqualified reference whose name
-	// equals a package component visible at some enclosing package prefix (cand is a
-	// package, not a type). protoc skips non-types for unqualified names and keeps walking
-	// outward; fileScope stops at the package sentinel.
-	kn := false
-	if !strings.Contains(ref, ".") {
-		scope := mpkg
-		for {
-			cand := ref
-			if scope != "" {
-				cand = scope + "." + ref
-			}
-			if syms[cand] == "pkg" {
-				kn = true
-			}
-			if scope == "" {
-				break
-			}
-			if i := strings.LastIndexByte(scope, '.'); i >= 0 {
-				scope = scope[:i]
-			} else {
-				scope = ""
-			}
-		}
-	}
-	zz.Known("C15/package-name-shadows-type", kn)
 	zz.Reach("C15/linked")
 	zz.Assert((err == nil) == ok, "C15/resolves-exactly-when-protoc-does")
 	if err == nil && ok {
